@@ -17,10 +17,12 @@ def keys_define(keys):
     return "{" + ",".join("{%d,%d}" % (len(k), k[0] if k else 0) for k in keys) + "}"
 
 
-def sq(name, keys, maxmem=40, pool=0, mergefail=0, scen=0, entry="h_sorter", witness=False, deliver=3, slash=0):
+def sq(name, keys, maxmem=40, pool=0, mergefail=0, scen=0, entry="h_sorter", witness=False, deliver=3, slash=0, mergeempty=0):
     d = {"NA": len(keys), "AKEYS": keys_define(keys) if keys else "{{0,0}}", "MAXMEM": maxmem, "POOL": pool,
          "MERGEFAIL": mergefail, "SCEN": scen, "DELIVER": deliver, "TMPDIR_SLASH": slash}
-    smp = {"adds": [k.decode("latin1") for k in keys], "max_memory": maxmem, "pool": bool(pool), "pool_delivery": ["at once", "at the next pool call", "only at result_handler_destroy", "solver-chosen per job"][deliver] if pool else None, "merge_fails_on_call": mergefail,
+    if mergeempty:
+        d["MERGEEMPTY"] = mergeempty
+    smp = {"adds": [k.decode("latin1") for k in keys], "max_memory": maxmem, "pool": bool(pool), "pool_delivery": ["at once", "at the next pool call", "only at result_handler_destroy", "solver-chosen per job"][deliver] if pool else None, "merge_fails_on_call": mergefail, "merge_returns_empty_value_on_call": mergeempty,
            "scenario": ["iterate", "destroy before iterating", "add/write after iter", "mtbl_sorter_write"][scen],
            "values": "symbolic byte per add; qsort tie order and pool delivery points nondeterministic"}
     return Query(name, harness="c_sorter.c", entry=entry, defines=d, unwind=max(8, len(keys) + 3), unwindset=US,
